@@ -49,7 +49,10 @@ const (
 	scale  = 100
 )
 
-var queueName = consensustypes.Queue("evm-turnstone-message", "evm", target)
+var (
+	queueName     = consensustypes.Queue("evm-turnstone-message", "evm", target)
+	queueNameHome = consensustypes.Queue("evm-turnstone-message", "evm", home)
+)
 
 type world struct {
 	e    *env.E1
@@ -92,7 +95,8 @@ func newWorld() *world {
 type row struct {
 	Home bool `json:"home"`
 	Acct int  `json:"acct"`
-	Mev  bool `json:"mev"`
+	MevH bool `json:"mevH"` // MEV trait of the home chain account
+	MevT bool `json:"mevT"` // MEV trait of the target chain account
 	Fee  int  `json:"fee"`
 	Perf bool `json:"perf"`
 }
@@ -102,6 +106,9 @@ type args struct {
 	V     int    `json:"v"`
 	Acct  int    `json:"acct"`
 	Mev   bool   `json:"mev"`
+	MevH  bool   `json:"mevH"`
+	MevT  bool   `json:"mevT"`
+	C     string `json:"c"`
 	S     int    `json:"s"`
 	T     int    `json:"t"`
 	Kind  string `json:"kind"`
@@ -132,19 +139,23 @@ func (r *run) addrOf(v int, acct int) string {
 	return r.w.vals[v].EthAddr.Hex()
 }
 
-func (r *run) infos(v int, isHome bool, acct int, mev bool) []*valsettypes.ExternalChainInfo {
-	var traits []string
+func traitsOf(mev bool) []string {
 	if mev {
-		traits = []string{valsettypes.PIGEON_TRAIT_MEV}
+		return []string{valsettypes.PIGEON_TRAIT_MEV}
 	}
+	return nil
+}
+
+// infos builds the registration of validator v: traits are per chain account.
+func (r *run) infos(v int, isHome bool, acct int, mevH, mevT bool) []*valsettypes.ExternalChainInfo {
 	var out []*valsettypes.ExternalChainInfo
 	if isHome {
 		a := r.w.vals[v].EthAddr
-		out = append(out, &valsettypes.ExternalChainInfo{ChainType: "evm", ChainReferenceID: home, Address: a.Hex(), Pubkey: a.Bytes(), Traits: traits})
+		out = append(out, &valsettypes.ExternalChainInfo{ChainType: "evm", ChainReferenceID: home, Address: a.Hex(), Pubkey: a.Bytes(), Traits: traitsOf(mevH)})
 	}
 	if acct != 0 {
 		a := r.addrOf(v, acct)
-		out = append(out, &valsettypes.ExternalChainInfo{ChainType: "evm", ChainReferenceID: target, Address: a, Pubkey: []byte(a), Traits: traits})
+		out = append(out, &valsettypes.ExternalChainInfo{ChainType: "evm", ChainReferenceID: target, Address: a, Pubkey: []byte(a), Traits: traitsOf(mevT)})
 	}
 	return out
 }
@@ -172,7 +183,7 @@ func (r *run) dropMetrics(v int) {
 }
 
 // curOf reads the current registration of validator v.
-func (r *run) curOf(v int) (isHome bool, acct int, mev bool) {
+func (r *run) curOf(v int) (isHome bool, acct int, mevH, mevT bool) {
 	infos, err := r.w.e.Valset.GetValidatorChainInfos(r.ctx, r.w.vals[v].Val)
 	must(err)
 	return r.project(v, infos)
@@ -199,22 +210,18 @@ func (r *run) addrID(v int, a string) int {
 	return 9
 }
 
-func (r *run) project(v int, infos []*valsettypes.ExternalChainInfo) (isHome bool, acct int, mev bool) {
-	var homeMev, tgtMev bool
+func (r *run) project(v int, infos []*valsettypes.ExternalChainInfo) (isHome bool, acct int, mevH, mevT bool) {
 	for _, ci := range infos {
 		switch ci.ChainReferenceID {
 		case home:
 			isHome = true
-			homeMev = hasMev(ci)
+			mevH = hasMev(ci)
 		case target:
 			acct = r.addrID(v, ci.Address)
-			tgtMev = hasMev(ci)
+			mevT = hasMev(ci)
 		}
 	}
-	if acct != 0 {
-		return isHome, acct, tgtMev
-	}
-	return isHome, acct, homeMev
+	return
 }
 
 func (r *run) valIdx(s string) int {
@@ -261,29 +268,35 @@ func (r *run) observe() map[string]any {
 	must(err)
 	fees, err := e.Treasury.GetRelayerFeesByChainReferenceID(ctx, target)
 	must(err)
+	feesH, err := e.Treasury.GetRelayerFeesByChainReferenceID(ctx, home)
+	must(err)
 	var snapO, curO []any
-	var feeO, featO []int
+	var feeO, feeHO, featO []int
 	var perfO []bool
 	uniform := true
 	var ref *metrixtypes.ValidatorMetrics
 	for i, v := range r.w.vals {
-		so := map[string]any{"member": false, "acct": 0, "mev": false}
+		so := map[string]any{"member": false, "acct": 0, "mevH": false, "mevT": false}
 		if snap != nil {
 			for _, sv := range snap.Validators {
 				if sv.Address.Equals(v.Val) {
-					_, a, m := r.project(i, sv.ExternalChainInfos)
-					so = map[string]any{"member": true, "acct": a, "mev": m}
+					_, a, mh, mt := r.project(i, sv.ExternalChainInfos)
+					so = map[string]any{"member": true, "acct": a, "mevH": mh, "mevT": mt}
 				}
 			}
 		}
 		snapO = append(snapO, so)
-		h, a, m := r.curOf(i)
-		curO = append(curO, map[string]any{"home": h, "acct": a, "mev": m})
-		f := 0
+		h, a, mh, mt := r.curOf(i)
+		curO = append(curO, map[string]any{"home": h, "acct": a, "mevH": mh, "mevT": mt})
+		f, fh := 0, 0
 		if d, ok := fees[v.Val.String()]; ok {
 			f = dec100Int(d)
 		}
+		if d, ok := feesH[v.Val.String()]; ok {
+			fh = dec100Int(d)
+		}
 		feeO = append(feeO, f)
+		feeHO = append(feeHO, fh)
 		rec, err := e.Metrix.GetValidatorMetrics(ctx, v.Val)
 		must(err)
 		perfO = append(perfO, rec != nil)
@@ -298,7 +311,7 @@ func (r *run) observe() map[string]any {
 		}
 		featO = append(featO, ft)
 	}
-	o["snap"], o["cur"], o["fee"], o["perf"], o["feat"], o["uniform"] = snapO, curO, feeO, perfO, featO, uniform
+	o["snap"], o["cur"], o["fee"], o["feeh"], o["perf"], o["feat"], o["uniform"] = snapO, curO, feeO, feeHO, perfO, featO, uniform
 	tf, err := e.Treasury.GetFees(ctx)
 	must(err)
 	cf, _ := math.LegacyNewDecFromStr(tf.CommunityFundFee)
@@ -312,6 +325,16 @@ func (r *run) observe() map[string]any {
 		q = append(q, r.msgObs(m))
 	}
 	o["queue"] = q
+	// logic calls on the home chain's queue (validator-set updates published by snapshot builds live there too: not projected)
+	msgsH, err := e.Consensus.GetMessagesFromQueue(ctx, queueNameHome, 0)
+	must(err)
+	qh := []any{}
+	for _, m := range msgsH {
+		if mo := r.msgObs(m); mo["kind"] == "slc" {
+			qh = append(qh, mo)
+		}
+	}
+	o["queueh"] = qh
 	return o
 }
 
@@ -372,6 +395,16 @@ func (r *run) queueIDs() map[uint64]bool {
 	for _, m := range msgs {
 		s[m.GetId()] = true
 	}
+	// logic calls of the home chain queue count as created messages too (model ids are shared)
+	msgsH, err := r.w.e.Consensus.GetMessagesFromQueue(r.ctx, queueNameHome, 0)
+	must(err)
+	for _, m := range msgsH {
+		if cm, err := m.ConsensusMsg(r.w.e.Cdc); err == nil {
+			if em, ok := cm.(*evmtypes.Message); ok && em.GetSubmitLogicCall() != nil {
+				s[m.GetId()] = true
+			}
+		}
+	}
 	return s
 }
 
@@ -394,7 +427,7 @@ func meta(a sdk.AccAddress) valsettypes.MsgMetadata {
 
 func (r *run) setup(a args, raw json.RawMessage) {
 	for v, rw := range a.Rows {
-		must(r.w.e.Valset.SetExternalChainInfoState(r.ctx, r.w.vals[v].Val, r.infos(v, rw.Home, rw.Acct, rw.Mev)))
+		must(r.w.e.Valset.SetExternalChainInfoState(r.ctx, r.w.vals[v].Val, r.infos(v, rw.Home, rw.Acct, rw.MevH, rw.MevT)))
 		r.setFee(v, rw.Fee)
 	}
 	_, err := r.w.e.Valset.TriggerSnapshotBuild(r.ctx)
@@ -409,8 +442,8 @@ func (r *run) setup(a args, raw json.RawMessage) {
 
 func (r *run) rereg(a args, raw json.RawMessage) {
 	v := a.V - 1
-	h, _, _ := r.curOf(v)
-	err := r.w.e.Valset.SetExternalChainInfoState(r.ctx, r.w.vals[v].Val, r.infos(v, h, a.Acct, a.Mev))
+	h, _, _, _ := r.curOf(v)
+	err := r.w.e.Valset.SetExternalChainInfoState(r.ctx, r.w.vals[v].Val, r.infos(v, h, a.Acct, a.MevH, a.MevT))
 	must(err)
 	r.emit("Rereg", raw, "rereg", "", nil)
 }
@@ -429,8 +462,12 @@ func (r *run) assign(a args, raw json.RawMessage) {
 		Deadline: r.base.Add(time.Hour).Unix(), SenderAddress: []byte(fmt.Sprintf("sender-%d", a.S)),
 		ExecutionRequirements: evmtypes.SubmitLogicCall_ExecutionRequirements{EnforceMEVRelay: a.Mev},
 	}
+	chain, compass := target, "compass-eth-b-1"
+	if a.C == "h" {
+		chain, compass = home, "compass-eth-a-1"
+	}
 	err, _ := env.RunMsg(r.ctx, func(ctx sdk.Context) error {
-		_, err := r.w.e.Evm.AddSmartContractExecutionToConsensus(ctx, target, "compass-eth-b-1", call)
+		_, err := r.w.e.Evm.AddSmartContractExecutionToConsensus(ctx, chain, compass, call)
 		return err
 	})
 	r.noteCreated(before)
